@@ -263,6 +263,42 @@ class Discharger:
                 return None
         return f"every caller of {f.qualname} ({', '.join(sorted({g.qualname for g, _ in sites}))}) passes a `{param}` it has tested non-empty"
 
+    def exported_value_type(self, f: Func, e: ast.AST):
+        """Type of `<param>["key"]` (or of a local bound once to it) when every caller passes the result of `<obj>.data()`
+        for that parameter: the type of what <class of obj>.data() stores under "key"; None when this is not the shape."""
+        if isinstance(e, ast.Name):
+            defs = self._defs(f, e.id)
+            if len(defs) != 1:
+                return None
+            e = defs[0]
+        if not (isinstance(e, ast.Subscript) and isinstance(e.value, ast.Name) and e.value.id in f.params and isinstance(e.slice, ast.Constant) and isinstance(e.slice.value, str)):
+            return None
+        from ..typeinf import classes_of, union
+
+        key, param = e.slice.value, e.value.id
+        sites = self._call_sites(f)
+        if not sites:
+            return None
+        types = []
+        for g, call in sites:
+            a = self._arg_for(f, call, param)
+            if not isinstance(a, ast.Name):
+                return None
+            gd = self._defs(g, a.id)
+            if len(gd) != 1 or not (isinstance(gd[0], ast.Call) and isinstance(gd[0].func, ast.Attribute) and gd[0].func.attr == "data"):
+                return None
+            obj_t = self.ctx.types.expr_type(gd[0].func.value, g)
+            cs = classes_of(obj_t)
+            if not cs:
+                return None
+            for c in cs:
+                ex = exported(self.ctx, c)
+                if key not in ex:
+                    return None
+                df = c.lookup_method("data")
+                types.append(self.ctx.types.expr_type(ex[key], df, c))
+        return union(types) if types else None
+
     def _grown_nonempty(self, f: Func, name: str) -> Optional[str]:
         """A local list that is only ever bound to a non-empty list literal and afterwards only grows."""
         if name in f.params:
@@ -1105,6 +1141,11 @@ def r20_1b(ctx: Ctx, rep: Report, sl: Set[Func]) -> None:
         for n in own_nodes(f.node):
             if isinstance(n, ast.Attribute) and isinstance(n.ctx, ast.Load):
                 t = ctx.types.expr_type(n.value, f)
+                # a value read from exported data has the type the exporter stores under that key, whatever the local
+                # that receives it is annotated with (`ipnet: IPv4Network = d["ipnet"]` is Optional when data() says so)
+                t_exp = dis.exported_value_type(f, n.value)
+                if t_exp is not None:
+                    t = t_exp
                 ms = members(t)
                 if NONE in ms and len(ms) > 1:
                     n_opt += 1
@@ -1721,6 +1762,13 @@ def run(ctx: Ctx, rep: Report, tier: str) -> None:
     r20_6(ctx, rep)
     r20_9(ctx, rep, sl)
     r20_10(ctx, rep)
+    # R20.11 what the option object renders is the text it was given (C01 R01.11): a re-ordered option text is read back
+    # as ports + options in another split and refused
+    from .c01 import option_partition
+
+    sub01 = Report("C20")
+    option_partition(ctx, sub01)
+    rep.absorb(sub01, "R20.11")
     # R20.7: what a constructor stores renders text it accepts again — structural parts decided elsewhere
     from .c06 import normaliser_fixed_point
     from .c08 import validated_is_returned
